@@ -304,6 +304,41 @@ def rule_wiring(chk):
             bind[m.group(1)] = U(l.exprs[0])
     chk.decide(bind == {'dst': 'dest', 'src': 'source'}, 'pointer-wiring', 'template-binding', file=TPL, func='do_group', line=0,
                detail_bad='template binds %s' % bind, detail_ok='dst = self.<dest>; src = self.<source>')
+    # the wrapper that `src.X` / `dst.X` resolve through must (re)bind every property AND every constant whenever an array is set
+    def pick(test):
+        return U(test) == 'len(group.data) > 0'
+    lines2 = MT.skeleton(tpl.fn('__template__'), choose=pick)
+    src2, table2 = MT.skeleton_source(lines2)
+    try:
+        mod2 = cy2ast.cy_string_to_ast(REPO, src2, TPL)
+    except cy2ast.FrontEndError as e:
+        raise AnalysisError('template shape not parseable: %s' % e)
+    w = M.find_class(mod2, 'ParticleArrayWrapper')
+    sa = M.find_func(w, 'set_array')
+    loops = [l for l in ast.walk(sa) if isinstance(l, ast.For)]
+    bound = {}
+    for l in loops:
+        for c in M.calls(l):
+            if M.call_name(c) == 'setattr' and len(c.args) == 3 and compact(c.args[0]) == 'self' and compact(c.args[1]) == compact(l.target) \
+                    and compact(c.args[2]) == 'pa.get_carray(%s)' % compact(l.target):
+                it = compact(l.iter)
+                defs = [a for a in ast.walk(sa) if isinstance(a, ast.Assign) and compact(a.targets[0]) == it]
+                bound[it] = [compact(a.value) for a in defs]
+    props_ok = any('pa.properties.keys()' in ' '.join(v) for v in bound.values())
+    const_ok = 'pa.constants.keys()' in bound or any('pa.constants' in ' '.join(v) for v in bound.values())
+    chk.decide(props_ok, 'pointer-wiring', 'wrapper-rebinds-properties', node=sa, file=TPL, func='ParticleArrayWrapper.set_array',
+               detail_bad='set_array does not bind every property carray of the new array', detail_ok='setattr(self, prop, pa.get_carray(prop)) for all properties')
+    chk.decide(const_ok, 'pointer-wiring', 'wrapper-rebinds-constants', node=sa, file=TPL, func='ParticleArrayWrapper.set_array',
+               detail_bad='set_array does not re-bind the constants: after update_particle_arrays the d_/s_ pointers of constants still refer to the '
+                          'previous particle array', detail_ok='constants re-bound as well')
+    init_w = M.find_func(w, '__init__')
+    chk.decide(any(M.call_name(c) == 'self.set_array' for c in M.calls(init_w)), 'pointer-wiring', 'wrapper-init-uses-set_array', node=init_w, file=TPL,
+               func='ParticleArrayWrapper.__init__', detail_bad='construction and re-binding use different code', detail_ok='__init__ calls set_array')
+    aev = M.find_class(mod2, 'AccelerationEval')
+    upa = M.find_func(aev, 'update_particle_arrays')
+    ok = any(isinstance(l, ast.For) and compact(l.iter) == 'particle_arrays' and 'getattr(self,name).set_array(pa)' in compact(l) for l in ast.walk(upa))
+    chk.decide(ok, 'pointer-wiring', 'update-rebinds-every-array', node=upa, file=TPL, func='AccelerationEval.update_particle_arrays',
+               detail_bad='update_particle_arrays does not call set_array for every array', detail_ok='set_array for every array')
     # known types for both prefixes
     kt = M.find_func(ah, 'get_known_types_for_arrays')
     src = U(kt)
